@@ -111,6 +111,8 @@ def casemap_mutations(h):
 
 def mutations(h, sigma):
     """ordered list of (label, mutant) -- never equal to h"""
+    import re
+
     out = []
     n = len(h)
     for i in range(n):
@@ -151,8 +153,6 @@ def mutations(h, sigma):
             out.append((f"dropval@{i}", h[: i + 1] + h[b:]))
             out.append((f"dropeq@{i}", h[:i] + h[i + 1 :]))
     # numeric surgery: every maximal digit run
-    import re
-
     for m in re.finditer(r"\d+", h):
         a, b = m.span()
         num = h[a:b]
@@ -168,8 +168,13 @@ def mutations(h, sigma):
     starts = [0] + [i + 1 for i, ch in enumerate(h) if ch in SEPS]
     for a in starts:
         if h[a:a + 2].isdigit() and h[a:a + 2].isascii() and not h[a + 2:a + 3].isdigit() or (a == 0 and h[:2].isdigit() and h[:2].isascii()):
+            # (a bcrypt cost field: the legitimate costs 12..31 would be COMPUTED -- 2^31 rounds -- and prove nothing;
+            #  the values below and the out-of-range values above them are all enumerated)
+            log2_cost = bool(re.search(r"\$2[abxy]?\$$", h[:a]))
             for v in range(100):
                 rep = f"{v:02d}"
+                if log2_cost and 12 <= v <= 31:
+                    continue
                 if rep != h[a:a + 2]:
                     out.append((f"num2@{a}:{rep}", h[:a] + rep + h[a + 2:]))
     # characters whose str.upper() / str.lower() is a longer or other ASCII text (ligatures, long s, dotless i, Kelvin
